@@ -6,6 +6,7 @@ import (
 	"encoding/json"
 	"fmt"
 	"io"
+	"math"
 
 	carv2 "github.com/ipld/go-car/v2"
 
@@ -235,6 +236,10 @@ func runC13(t *mon.T, raw json.RawMessage) {
 			accept bool
 		}
 		vs := []variant{{"defaults", cfg.Opts(), true}}
+		// limits at the top of the integer range ("no limit")
+		vs = append(vs, variant{"section-limit-max-uint64", append(cfg.Opts(), carv2.MaxAllowedSectionSize(math.MaxUint64)), true},
+			variant{"section-limit-2^63", append(cfg.Opts(), carv2.MaxAllowedSectionSize(1<<63)), true},
+			variant{"header-limit-max-uint64", append(cfg.Opts(), carv2.MaxAllowedHeaderSize(math.MaxUint64)), true})
 		if maxSec > 0 {
 			vs = append(vs, variant{"section-limit-at-max", append(cfg.Opts(), carv2.MaxAllowedSectionSize(maxSec)), true})
 			vs = append(vs, variant{"section-limit-below-max", append(cfg.Opts(), carv2.MaxAllowedSectionSize(maxSec-1)), false})
@@ -313,7 +318,7 @@ func runC13(t *mon.T, raw json.RawMessage) {
 			in := append([]byte{}, file...)
 			var class string
 			reject := true
-			switch r.Intn(9) {
+			switch r.Intn(10) {
 			case 0, 1: // flip inside data or digest
 				if len(a.Payload.Sections) == 0 {
 					continue
@@ -373,6 +378,17 @@ func runC13(t *mon.T, raw json.RawMessage) {
 				}
 				t.Cover("typed:" + class)
 				continue
+			case 9: // the payload header of a CARv2 claims another version than 1
+				if a.Version != 2 {
+					continue
+				}
+				hdrEnd := int(po + a.Payload.HeaderSize)
+				j := bytes.Index(in[po:hdrEnd], []byte("version"))
+				if j < 0 || in[int(po)+j+7] != 0x01 {
+					continue
+				}
+				in[int(po)+j+7] = []byte{0x00, 0x02, 0x03, 0x17}[r.Intn(4)]
+				class = "payload-header-version-not-1"
 			case 7: // zero-length section in the middle, option off
 				if a.Version == 2 || cfg.ZeroEOF {
 					continue
@@ -409,6 +425,18 @@ func runC13(t *mon.T, raw json.RawMessage) {
 			t.Cover("typed:" + class)
 			if reject && err == nil {
 				t.ViolateD("Inspect(true)/"+class+"/accepted", map[string]any{"input": fmt.Sprintf("%x", in)}, "Inspect(true) accepts a %s archive corrupted by: %s", container, class)
+			}
+			// the same on ONE Reader after a non-validating pass: what Inspect(true) reports must not
+			// depend on what was asked of the Reader before
+			if rd, rerr := carv2.NewReader(bytes.NewReader(in), cfg.Opts()...); rerr == nil {
+				_, _ = rd.Inspect(false)
+				_, err2 := rd.Inspect(true)
+				t.Events(1)
+				if (err == nil) != (err2 == nil) {
+					t.ViolateD("Inspect(true)/"+class+"/verdict-depends-on-an-earlier-Inspect(false)", map[string]any{"input": fmt.Sprintf("%x", in)},
+						"a fresh Inspect(true) says %v, Inspect(true) after Inspect(false) on the same Reader says %v", err, err2)
+				}
+				t.Cover("typed:inspect-false-then-true")
 			}
 		}
 
